@@ -4,6 +4,14 @@ import json, os, subprocess
 VERIF = os.path.dirname(os.path.dirname(os.path.abspath(__file__)))
 
 CLAIMED = {
+    "C05": ("DESIGN.md §4 C05, Appendix A.1",
+            "Per-unit accounting state (error flag, parameter cursor) and the per-call return value are exercised by seeded input calls of 1..3 messages of 1..4 units; "
+            "every unit pairs a seeded handler signature (15 readers incl. arrays, mandatory/optional, four return policies incl. silent failure and errors pushed from "
+            "inside the handler) with a list of items whose class and value are known by construction, blanks around commas, malformed fragments; return value, raised "
+            "codes and delivered value/extent per reader call follow table A.1, -108/-200 accounting per unit, SCPI_Input return value per call. Exploration level.",
+            "Which -1xx code a malformed list gets is not asserted; the numeric value of non-integer literals is C04's subject and not asserted; plans whose labels "
+            "disagree with their literals (possible only through shrinking) are inert.",
+            "deterministic simulation: seeded handler-failure/segmentation schedules with by-construction expectations"),
     "C06": ("DESIGN.md §4 C06",
             "Framing state is carried across units and messages; the simulator drives seeded messages of 1..6 units over scripted handlers (queries emitting 0..4 "
             "items of every result type, succeeding, failing silently, failing after emitting, raising errors mid-unit; commands), any segmentation, after any "
